@@ -111,10 +111,10 @@ def check(ctx):
     must_call(ctx, repo, itf)
     validators(ctx, repo, itf)
     foreign_keys(ctx, repo, itf)
-    narrowing(ctx, repo)
-    announced(ctx, repo, itf)
     exact_comparisons(ctx, repo, itf)
     joint_assessment(ctx, repo)
+    announced(ctx, repo, itf)
+    narrowing(ctx, repo)
 
 
 def must_call(ctx, repo, itf):
@@ -281,94 +281,126 @@ def foreign_keys(ctx, repo, itf):
 
 
 def narrowing(ctx, repo):
-    ctx.rule("F3", "in convert_series_to_internal_type: float -> int happens only under an equality test between the series and its integer cast; -> bool only under a test that all values are 0/1; object and bool -> float raise; every except re-raises")
-    gt = repo.module("gettsim_typing.py")
-    fd = find_function(gt, "convert_series_to_internal_type", "primary anchor")
-    parents = {}
-    for n in ast.walk(fd):
-        for c in ast.iter_child_nodes(n):
-            parents[c] = n
+    ctx.rule("F3", "in the type converter (incl. its helpers): float -> int happens only under an equality test between the series and its integer cast; -> bool only under a test that all values are 0/1; bool -> float and object input raise; every except re-raises; unsupported target types raise")
+    import itertools
 
-    def enclosing_ifs(n):
-        out = []
-        while n in parents:
-            p = parents[n]
-            if isinstance(p, ast.If):
-                out.append((p, "body" if any(n is x or n in list(ast.walk(x)) for x in p.body) else "orelse"))
-            n = p
-        return out
+    from staticlib.guards import Dominance, atoms_and_eval, scope_functions
+
+    gt = repo.module("gettsim_typing.py")
+    main = find_function(gt, "convert_series_to_internal_type", "primary anchor")
+    scope = scope_functions(gt, main)
+    doms = {f.name: Dominance(f) for f in scope}
+    # conditions at the (single) call site of each helper, expressed in the caller
+    callsite = {main.name: []}
+    for f in scope:
+        for n in ast.walk(f):
+            if isinstance(n, ast.Call) and isinstance(n.func, ast.Name) and n.func.id in doms and n.func.id != f.name:
+                callsite.setdefault(n.func.id, callsite.get(f.name, []) + doms[f.name].of(n))
+
+    def atom_for(series):
+        def atom(node):
+            t = ast.unparse(node)
+            if isinstance(node, ast.Call):
+                fn_ = ast.unparse(node.func)
+                args = [ast.unparse(a) for a in node.args]
+                if fn_.endswith(("array_equal", "array_equiv")) and len(args) == 2 and any(a.startswith(f"{series}.astype(") for a in args) and series in args:
+                    return "INTEGRAL"
+                if fn_.endswith(".equals") and args and args[0].startswith(f"{series}.astype("):
+                    return "INTEGRAL"
+                for k, nm in (("is_float_dtype", "IS_FLOAT"), ("is_bool_dtype", "IS_BOOL"), ("is_integer_dtype", "IS_INT"), ("is_object_dtype", "IS_OBJECT"), ("is_datetime64_any_dtype", "IS_DATE")):
+                    if fn_ == k and len(args) == 1:
+                        return nm
+                if fn_.endswith(".all") and not args and f"{series}.astype(" in t and "==" in t:
+                    return "INTEGRAL"
+                if fn_.endswith(".all") and "isin(" in t and _mentions_only_0_1(t):
+                    return "ZERO_ONE"
+            if isinstance(node, ast.Compare) and len(node.ops) == 1 and isinstance(node.ops[0], ast.Eq):
+                l, r = ast.unparse(node.left), ast.unparse(node.comparators[0])
+                if l.startswith("len(") and r == "0" and series in l and _mentions_only_0_1(l + " == 0") and " in " in l and "not " in l:
+                    return "ZERO_ONE"
+                if "internal_type" in (l, r):
+                    return "TYPE_" + (r if l == "internal_type" else l)
+            return None
+        return atom
 
     nconv = 0
-    for n in ast.walk(fd):
-        if isinstance(n, ast.Call) and isinstance(n.func, ast.Attribute) and n.func.attr == "astype" and n.args:
-            t = ast.unparse(n.args[0])
-            par = parents.get(n)
-            if not isinstance(par, ast.Assign):
+    for f in scope:
+        dom = doms[f.name]
+        for n in ast.walk(f):
+            if not (isinstance(n, ast.Call) and isinstance(n.func, ast.Attribute) and n.func.attr == "astype" and n.args):
+                continue
+            par = dom.parent.get(n)
+            if not isinstance(par, (ast.Assign, ast.Return)):
                 continue  # a cast inside a test, not a conversion of the result
-            chain = enclosing_ifs(par)
-            tests = [(ast.unparse(i.test), br) for i, br in chain]
-            under_float = any("is_float_dtype" in tt and br == "body" for tt, br in tests)
             series = ast.unparse(n.func.value)
+            t = ast.unparse(n.args[0])
+            conds = callsite.get(f.name, []) + dom.of(par)
+            names, conj = atoms_and_eval(conds, atom_for(series))
+            opaque_value_tests = [x for x in names if x.startswith("opaque:") and series in x and any(k in x for k in ("astype", "%", "mod", "is_integer", "unique", "isin", "round", "trunc", "floor")) and not any(k in x for k in TOLERANT)]
 
-            def data_tests(tests_):
-                """enclosing tests (true branch) that look at the values of the series, not only at its dtype"""
-                pure_dtype = ("is_float_dtype", "is_integer_dtype", "is_bool_dtype", "is_object_dtype", "is_datetime64_any_dtype")
-                return [tt for tt, br in tests_ if br == "body" and series in tt and not any(tt in (f"{f}({series})", f"not {f}({series})") for f in pure_dtype)]
+            def violated(pred):
+                for vals in itertools.product([False, True], repeat=len(names)):
+                    env = dict(zip(names, vals))
+                    if conj(env) and pred(env):
+                        return True
+                return False
 
-            if t in ("int", "np.int64", "numpy.int64", "'int64'"):
+            if t in ("int", "np.int64", "numpy.int64", "'int64'", "'int'"):
                 nconv += 1
-                if under_float:
-                    dts = data_tests(tests)
-                    recognised = [tt for tt in dts if (f"{series}.astype(" in tt and ("array_equal" in tt or "==" in tt or "equals" in tt)) or "% 1" in tt or "is_integer" in tt or "mod(" in tt]
-                    if not dts:
-                        ctx.ob("F3", ok=False, distinct="float->int")
-                        ctx.violation("F3", "float->int|unguarded", gt.loc(par), f"`{ast.unparse(par)}` converts a float series to int without being dominated by any test on its values: decimals are truncated silently")
-                    elif not recognised:
-                        raise AnalysisError(f"float->int conversion is guarded by `{dts[0][:80]}`, an idiom F3 does not know; re-read needed")
-                    else:
-                        ctx.ob("F3", ok=True, distinct="float->int")
-                else:
-                    ctx.ob("F3", ok=True, distinct="other->int")
+                bad = violated(lambda e: e.get("IS_FLOAT", "IS_FLOAT" not in names) and not e.get("INTEGRAL", False))
+                if bad and opaque_value_tests:
+                    raise AnalysisError(f"float->int conversion is guarded by `{opaque_value_tests[0][7:90]}`, an idiom F3 does not know; re-read needed")
+                ctx.ob("F3", ok=not bad, distinct=("->int", f.name, par.lineno))
+                if bad:
+                    ctx.violation("F3", "float->int|unguarded", gt.loc(par) + f" {f.name}", f"`{ast.unparse(par)[:70]}` can convert a float series to int without the test that the cast leaves every value unchanged: decimals are truncated silently")
             elif t == "bool":
                 nconv += 1
-                dts = data_tests(tests)
-                recognised = [tt for tt in dts if _mentions_only_0_1(tt)]
-                if not dts:
-                    ctx.ob("F3", ok=False, distinct=("->bool", par.lineno))
-                    ctx.violation("F3", "->bool|unguarded", gt.loc(par), f"`{ast.unparse(par)}` converts to bool without being dominated by a test that all values are 0 or 1")
-                elif not recognised:
-                    raise AnalysisError(f"->bool conversion is guarded by `{dts[0][:80]}`, an idiom F3 does not know; re-read needed")
-                else:
-                    ctx.ob("F3", ok=True, distinct=("->bool", par.lineno))
+                bad = violated(lambda e: not e.get("ZERO_ONE", False))
+                if bad and opaque_value_tests:
+                    raise AnalysisError(f"->bool conversion is guarded by `{opaque_value_tests[0][7:90]}`, an idiom F3 does not know; re-read needed")
+                ctx.ob("F3", ok=not bad, distinct=("->bool", f.name, par.lineno))
+                if bad:
+                    ctx.violation("F3", "->bool|unguarded", gt.loc(par) + f" {f.name}", f"`{ast.unparse(par)[:70]}` can convert to bool without the test that all values are 0 or 1")
             elif t == "float":
                 nconv += 1
-                ok = any("is_bool_dtype" in tt and br == "orelse" for tt, br in tests)
-                ctx.ob("F3", ok=ok, distinct="->float")
-                if not ok:
-                    ctx.violation("F3", "bool->float|accepted", gt.loc(par), "conversion to float is no longer guarded against boolean input (True/False would become 1.0/0.0)")
+                bad = violated(lambda e: e.get("IS_BOOL", "IS_BOOL" not in names))
+                ctx.ob("F3", ok=not bad, distinct=("->float", f.name))
+                if bad:
+                    ctx.violation("F3", "bool->float|accepted", gt.loc(par) + f" {f.name}", "conversion to float is no longer guarded against boolean input (True/False would become 1.0/0.0)")
+            else:
+                continue
+            # object dtype is rejected before any conversion
+            if t in ("int", "np.int64", "numpy.int64", "bool", "float"):
+                badobj = "IS_OBJECT" not in names or violated(lambda e: e.get("IS_OBJECT", False))
+                ctx.ob("F3", ok=not badobj, distinct=("object", f.name, par.lineno))
+                if badobj:
+                    ctx.violation("F3", "object|accepted", gt.loc(par) + f" {f.name}", "object-dtype input can reach a conversion instead of being rejected up front")
     if nconv < 4:
-        raise AnalysisError(f"convert_series_to_internal_type: only {nconv} conversions recognised; F3 needs a re-read")
-    # object dtype raises first
-    first_if = [n for n in fd.body if isinstance(n, ast.If)]
-    ok = bool(first_if) and "is_object_dtype" in ast.unparse(first_if[0].test) and any(isinstance(x, ast.Raise) for x in first_if[0].body)
-    ctx.ob("F3", ok=ok, distinct="object")
-    if not ok:
-        ctx.violation("F3", "object|accepted", gt.loc(fd), "object-dtype input is no longer rejected up front")
-    for h in [n for n in ast.walk(fd) if isinstance(n, ast.ExceptHandler)]:
-        ok = any(isinstance(x, ast.Raise) for x in ast.walk(h))
-        ctx.ob("F3", ok=ok, distinct=("except", h.lineno))
-        if not ok:
-            ctx.violation("F3", "except|swallowed", gt.loc(h), "an except clause swallows the conversion error instead of re-raising")
-    # unsupported internal types raise
-    ok = isinstance(fd.body[-1], ast.Return) and any(isinstance(n, ast.Raise) and "not yet supported" in ast.unparse(n) for n in ast.walk(fd))
+        raise AnalysisError(f"type converter: only {nconv} conversions recognised; F3 needs a re-read")
+    for f in scope:
+        for h in [n for n in ast.walk(f) if isinstance(n, ast.ExceptHandler)]:
+            ok = any(isinstance(x, ast.Raise) for x in ast.walk(h))
+            ctx.ob("F3", ok=ok, distinct=("except", f.name, h.lineno))
+            if not ok:
+                ctx.violation("F3", "except|swallowed", gt.loc(h) + f" {f.name}", "an except clause swallows the conversion error instead of re-raising")
+    # unsupported internal types raise: a raise dominated by the negation of every `internal_type == X` test
+    dom = doms[main.name]
+    ok = False
+    for r in [n for n in ast.walk(main) if isinstance(n, ast.Raise)]:
+        names, conj = atoms_and_eval(dom.of(r), atom_for("out"))
+        types = [x for x in names if x.startswith("TYPE_")]
+        if len(types) >= 3 and conj({x: False for x in names}) and not any(conj({**{x: False for x in names}, tname: True}) for tname in types):
+            ok = True
     ctx.ob("F3", ok=ok, distinct="unsupported-type")
     if not ok:
-        ctx.violation("F3", "unsupported-type|accepted", gt.loc(fd), "an unsupported internal type no longer raises")
+        ctx.violation("F3", "unsupported-type|accepted", gt.loc(main), "an unsupported internal type no longer raises")
 
 
 def joint_assessment(ctx, repo):
     """F7: spouses with contradictory joint-assessment flags are rejected whichever of them comes first"""
     ctx.rule("F7", "in the tax-unit scan the contradiction test (flag of the person != flag of the already-seen spouse) is guarded only by 'spouse already seen', not by the value of either flag: the rejection is symmetric in the two spouses")
+    from staticlib.guards import Dominance
+
     g = repo.module("groupings.py")
     gf = repo.grouping_funcs.get("sn_id")
     if gf is None:
@@ -377,40 +409,81 @@ def joint_assessment(ctx, repo):
     flag_param = [a.arg for a in fd.args.args if "veranlagt" in a.arg]
     if len(flag_param) != 1:
         raise AnalysisError("sn_id: joint-assessment flag parameter not recognised")
-    raises = [n for n in ast.walk(fd) if isinstance(n, ast.Raise)]
-    if not raises:
+
+    def derived_names(f, seeds):
+        d = set(seeds)
+        for _ in range(4):
+            for n in ast.walk(f):
+                if isinstance(n, ast.Assign) and any(isinstance(x, ast.Name) and x.id in d for x in ast.walk(n.value)):
+                    for t in n.targets:
+                        for tt in (t.elts if isinstance(t, (ast.Tuple, ast.List)) else [t]):
+                            if isinstance(tt, ast.Name):
+                                d.add(tt.id)
+                            elif isinstance(tt, ast.Subscript) and isinstance(tt.value, ast.Name):
+                                d.add(tt.value.id)
+        return d
+
+    derived = derived_names(fd, flag_param)
+    dom = Dominance(fd)
+    counts, defs = {}, {}
+    for n in ast.walk(fd):
+        if isinstance(n, ast.Assign) and len(n.targets) == 1 and isinstance(n.targets[0], ast.Name):
+            counts[n.targets[0].id] = counts.get(n.targets[0].id, 0) + 1
+            defs[n.targets[0].id] = n.value
+    bool_locals = {k: v for k, v in defs.items() if isinstance(v, (ast.BoolOp, ast.Compare))}
+
+    class Inline(ast.NodeTransformer):
+        def visit_Name(self, n):
+            if n.id in bool_locals and isinstance(n.ctx, ast.Load):
+                return ast.parse(ast.unparse(bool_locals[n.id]), mode="eval").body
+            return n
+
+    def inl(t):
+        return Inline().visit(ast.parse(ast.unparse(t), mode="eval").body)
+    # raise sites: a raise in the scan itself, or a call of a module-level helper that raises
+    sites = []  # (node in fd, guards inside helper [tests over helper params], flag-derived helper params)
+    for n in ast.walk(fd):
+        if isinstance(n, ast.Raise):
+            sites.append((n, [], set()))
+        if isinstance(n, ast.Call) and isinstance(n.func, ast.Name) and n.func.id in g.functions and n.func.id != fd.name:
+            h = g.functions[n.func.id]
+            hr = [x for x in ast.walk(h) if isinstance(x, ast.Raise)]
+            if hr:
+                hparams = [a.arg for a in h.args.args]
+                bound = dict(zip(hparams, n.args))
+                bound.update({kw.arg: kw.value for kw in n.keywords})
+                hflags = {p_ for p_, a in bound.items() if any(isinstance(x, ast.Name) and x.id in derived for x in ast.walk(a))}
+                hd = Dominance(h)
+                for r in hr:
+                    sites.append((n, [(t, pol, derived_names(h, hflags)) for t, pol in hd.of(r)], hflags))
+    if not sites:
         ctx.ob("F7", ok=False, distinct="raise")
         ctx.violation("F7", "sn_id|no-raise", g.loc(fd) + f" {gf[0]}", "the tax-unit scan no longer rejects spouses with contradictory joint-assessment flags")
         return
-    # names derived from the flag column (current person's flag, stored spouse flag)
-    derived = set(flag_param)
-    for _ in range(3):
-        for n in ast.walk(fd):
-            if isinstance(n, ast.Assign) and any(isinstance(x, ast.Name) and x.id in derived for x in ast.walk(n.value)):
-                for t in n.targets:
-                    if isinstance(t, ast.Name):
-                        derived.add(t.id)
-                    elif isinstance(t, ast.Subscript) and isinstance(t.value, ast.Name):
-                        derived.add(t.value.id)
-    parents = {}
-    for n in ast.walk(fd):
-        for c in ast.iter_child_nodes(n):
-            parents[c] = n
-    for r in raises:
-        guards = []
-        n = r
-        while n in parents:
-            p = parents[n]
-            if isinstance(p, ast.If):
-                guards.append(p.test)
-            n = p
-        flagtests = [t for t in guards if any(isinstance(x, ast.Name) and x.id in derived for x in ast.walk(t))]
-        # exactly one guard may look at the flags, and it must compare two flag values with != / ==
-        ok = len(flagtests) == 1 and isinstance(flagtests[0], ast.Compare) and len(flagtests[0].ops) == 1 and isinstance(flagtests[0].ops[0], (ast.NotEq, ast.Eq, ast.IsNot, ast.Is)) and all(any(isinstance(x, ast.Name) and x.id in derived for x in ast.walk(side)) for side in (flagtests[0].left, flagtests[0].comparators[0]))
-        ctx.ob("F7", ok=ok, distinct=r.lineno)
-        if not ok:
-            extra = [ast.unparse(t) for t in flagtests]
-            ctx.violation("F7", "sn_id|asymmetric-guard", g.loc(r) + f" {gf[0]}", f"the contradiction is raised only under {extra}: a couple is rejected or accepted depending on which spouse is listed first / which of them carries the flag")
+    for node, inner, hflags in sites:
+        flagtests = [inl(t) for t, pol in dom.of(node) if any(isinstance(x, ast.Name) and x.id in derived for x in ast.walk(t))]
+        # a guard that merely caches `spouse already seen` in a local is not a flag test
+        flagtests = [t for t in flagtests if not _only_seen_test(fd, t, derived)]
+        inner_flag = [t for t, pol, hd_ in inner if any(isinstance(x, ast.Name) and x.id in hd_ for x in ast.walk(t))]
+        allf = flagtests + inner_flag
+        cmp_ok = len(allf) == 1 and isinstance(allf[0], ast.Compare) and len(allf[0].ops) == 1 and isinstance(allf[0].ops[0], (ast.NotEq, ast.Eq, ast.IsNot, ast.Is)) and all(isinstance(side, ast.Name) for side in (allf[0].left, allf[0].comparators[0]))
+        ctx.ob("F7", ok=cmp_ok, distinct=getattr(node, "lineno", 0))
+        if not cmp_ok:
+            extra = [ast.unparse(t) for t in allf]
+            ctx.violation("F7", "sn_id|asymmetric-guard", g.loc(node) + f" {gf[0]}", f"the contradiction is raised only under {extra}: a couple is rejected or accepted depending on which spouse is listed first / which of them carries the flag")
+
+
+def _only_seen_test(fd, test, derived):
+    """the test mentions a flag-derived container only through membership of the spouse (`spouse in seen_map`)"""
+    for x in ast.walk(test):
+        if isinstance(x, ast.Name) and x.id in derived:
+            ok = False
+            for c in ast.walk(test):
+                if isinstance(c, ast.Compare) and any(isinstance(o, (ast.In, ast.NotIn)) for o in c.ops) and any(x is y for y in ast.walk(c.comparators[0])):
+                    ok = True
+            if not ok:
+                return False
+    return True
 
 
 def _mentions_only_0_1(test_text):
@@ -425,8 +498,11 @@ def _mentions_only_0_1(test_text):
 
 
 def announced(ctx, repo, itf):
-    ctx.rule("F4", "in _convert_data_to_correct_types every recorded conversion is announced by warnings.warn (or an error is raised); a failed conversion is recorded as an error")
+    ctx.rule("F4", "in _convert_data_to_correct_types every recorded conversion is announced by warnings.warn (unless an error is raised); a failed conversion is recorded and raised")
+    from staticlib.guards import Dominance
+
     fd = find_function(itf, "_convert_data_to_correct_types", "primary anchor")
+    dom = Dominance(fd)
     lists = {}
     for n in walk_own(fd):
         if isinstance(n, ast.Assign) and isinstance(n.targets[0], ast.Name) and isinstance(n.value, ast.List):
@@ -435,49 +511,92 @@ def announced(ctx, repo, itf):
     for n in ast.walk(fd):
         if isinstance(n, ast.Call) and isinstance(n.func, ast.Attribute) and n.func.attr == "append" and isinstance(n.func.value, ast.Name) and n.func.value.id in lists:
             appended[n.func.value.id] = n
-    conv = [k for k, n in appended.items() if not any(isinstance(p, ast.ExceptHandler) and n in list(ast.walk(p)) for p in ast.walk(fd))]
-    errs = [k for k, n in appended.items() if any(isinstance(p, ast.ExceptHandler) and n in list(ast.walk(p)) for p in ast.walk(fd))]
+    handlers = [h for h in ast.walk(fd) if isinstance(h, ast.ExceptHandler)]
+    errs = [k for k, n in appended.items() if any(n in list(ast.walk(h)) for h in handlers)]
+    conv = [k for k in appended if k not in errs]
     if len(conv) != 1 or len(errs) != 1:
         raise AnalysisError("_convert_data_to_correct_types: the two collector lists (conversions, errors) not recognised; F4 needs a re-read")
     cv, er = conv[0], errs[0]
 
-    def threshold_ok(test, var):
-        # `len(var) > c` must be true as soon as one entry was appended
-        if isinstance(test, ast.Compare) and len(test.ops) == 1 and ast.unparse(test.left) == f"len({var})" and isinstance(test.comparators[0], ast.Constant):
-            c = test.comparators[0].value
-            n1 = lists[var] + 1
-            return {ast.Gt: n1 > c, ast.GtE: n1 >= c, ast.NotEq: n1 != c}.get(type(test.ops[0]), False)
-        return False
+    def holds(test, lens):
+        """evaluate a test over the collector lists with the given lengths; None if it involves anything else"""
+        class R(ast.NodeTransformer):
+            def visit_Call(self, n):
+                if isinstance(n.func, ast.Name) and n.func.id == "len" and len(n.args) == 1 and isinstance(n.args[0], ast.Name) and n.args[0].id in lens:
+                    return ast.Constant(lens[n.args[0].id])
+                return self.generic_visit(n)
 
-    tail = [n for n in fd.body if isinstance(n, ast.If)]
-    ok_raise = ok_warn = False
-    for t in tail:
-        node = t
-        while isinstance(node, ast.If):
-            if threshold_ok(node.test, er) and any(isinstance(x, ast.Raise) for x in node.body):
-                ok_raise = True
-            if threshold_ok(node.test, cv) and any(isinstance(x, ast.Call) and ast.unparse(x.func) == "warnings.warn" for st in node.body for x in ast.walk(st)):
-                ok_warn = True
-            node = node.orelse[0] if len(node.orelse) == 1 else None
+            def visit_Name(self, n):
+                if n.id in lens:
+                    return ast.Constant(lens[n.id])  # truthiness of a list = its length
+                return n
+
+        e = R().visit(ast.parse(ast.unparse(test), mode="eval").body)
+        ast.fix_missing_locations(e)
+        if any(isinstance(x, (ast.Name, ast.Call, ast.Attribute, ast.Subscript)) for x in ast.walk(e)):
+            return None
+        try:
+            return bool(eval(compile(ast.Expression(e), "<t>", "eval"), {"__builtins__": {}}))  # noqa: S307 - constant expression
+        except Exception:  # noqa: BLE001
+            return None
+
+    def reached(node, lens):
+        for t, pol in dom.of(node):
+            if not any(isinstance(x, ast.Name) and x.id in lens for x in ast.walk(t)):
+                continue  # conditions unrelated to the collectors (none expected after the loop)
+            h = holds(t, lens)
+            if h is None:
+                raise AnalysisError(f"_convert_data_to_correct_types: test `{ast.unparse(t)[:60]}` on the collector lists not evaluable; F4 needs a re-read")
+            if h != pol:
+                return False
+        return True
+
+    loop_end = max((n.end_lineno for n in walk_own(fd) if isinstance(n, ast.For)), default=0)
+    raises = [n for n in ast.walk(fd) if isinstance(n, ast.Raise) and n.lineno > loop_end]
+    warns = [n for n in ast.walk(fd) if isinstance(n, ast.Call) and ast.unparse(n.func) == "warnings.warn" and n.lineno > loop_end]
+    one_err = [{er: lists[er] + 1, cv: lists[cv]}, {er: lists[er] + 1, cv: lists[cv] + 1}]
+    ok_raise = bool(raises) and all(any(reached(r, lens) for r in raises) for lens in one_err)
+    ok_warn = bool(warns) and any(reached(w, {er: lists[er], cv: lists[cv] + 1}) for w in warns)
     ctx.ob("F4", ok=ok_warn, distinct="warn")
     if not ok_warn:
-        ctx.violation("F4", "conversion-not-announced", itf.loc(fd), f"a successful automatic conversion (recorded in {cv}) does not reach warnings.warn on every path: types are coerced silently")
+        ctx.violation("F4", "conversion-not-announced", itf.loc(fd), f"with one successful automatic conversion recorded in `{cv}` (and no error) no warnings.warn is reached: types are coerced silently")
     ctx.ob("F4", ok=ok_raise, distinct="raise")
     if not ok_raise:
-        ctx.violation("F4", "conversion-error-not-raised", itf.loc(fd), f"a failed conversion (recorded in {er}) does not reach a raise")
-    # the converted series replaces the column and the conversion is recorded in the same block
+        ctx.violation("F4", "conversion-error-not-raised", itf.loc(fd), f"with one failed conversion recorded in `{er}` no raise is reached")
+    # the conversion is attempted in a try that catches ValueError, and recorded on success (try body or else)
     rec = appended[cv]
     blk = None
     for n in ast.walk(fd):
         if isinstance(n, ast.Try) and rec in list(ast.walk(n)):
             blk = n
-    ok = blk is not None and any(isinstance(x, ast.Call) and isinstance(x.func, ast.Name) and x.func.id == "convert_series_to_internal_type" for st in blk.body for x in ast.walk(st)) and any(isinstance(h.type, ast.Name) and h.type.id == "ValueError" for h in blk.handlers)
+    ok = blk is not None and any(isinstance(x, ast.Call) and isinstance(x.func, ast.Name) and x.func.id == "convert_series_to_internal_type" for st in blk.body for x in ast.walk(st)) and any(h.type is not None and "ValueError" in ast.unparse(h.type) for h in blk.handlers) and not any(rec in list(ast.walk(h)) for h in blk.handlers) and not any(rec in list(ast.walk(st)) for st in blk.finalbody)
     ctx.ob("F4", ok=ok, distinct="record")
     if not ok:
-        ctx.violation("F4", "conversion-not-recorded", itf.loc(fd), "conversion and its recording are no longer in one try block catching ValueError")
-    # check_series_has_expected_type gates conversion: conversion only when the type does not match
-    gates = [n for n in ast.walk(fd) if isinstance(n, ast.If) and "check_series_has_expected_type" in ast.unparse(n.test) and rec in list(ast.walk(n))]
-    ok = bool(gates) and isinstance(gates[0].test, ast.BoolOp) and any(isinstance(v, ast.UnaryOp) and isinstance(v.op, ast.Not) for v in gates[0].test.values)
-    ctx.ob("F4", ok=ok, distinct="gate")
-    if not ok:
-        ctx.violation("F4", "conversion-gate", itf.loc(fd), "conversion is no longer applied exactly to the columns whose dtype differs from the documented type")
+        ctx.violation("F4", "conversion-not-recorded", itf.loc(fd), "conversion and its recording are no longer tied together in one try block catching ValueError")
+    # conversion is attempted exactly for columns with a known type that do not already have it
+    call = next(x for st in (blk.body if blk else []) for x in ast.walk(st) if isinstance(x, ast.Call) and isinstance(x.func, ast.Name) and x.func.id == "convert_series_to_internal_type") if ok else None
+    if call is not None:
+        from staticlib.guards import atoms_and_eval
+
+        def atom(node):
+            if isinstance(node, ast.Call) and isinstance(node.func, ast.Name) and node.func.id == "check_series_has_expected_type":
+                return "HAS_TYPE"
+            if isinstance(node, ast.Name) and node.id == "internal_type":
+                return "KNOWN"
+            return None
+
+        names, conj = atoms_and_eval(dom.of(call), atom)
+        rel = [x for x in names if x in ("HAS_TYPE", "KNOWN")]
+        good = set(rel) == {"HAS_TYPE", "KNOWN"}
+        if good:
+            import itertools
+
+            for vals in itertools.product([False, True], repeat=len(names)):
+                env = dict(zip(names, vals))
+                if conj(env) != (env["KNOWN"] and not env["HAS_TYPE"]) and all(not k.startswith("opaque:") or not env[k] for k in names):
+                    good = False
+        ctx.ob("F4", ok=good, distinct="gate")
+        if not good:
+            ctx.violation("F4", "conversion-gate", itf.loc(call), "conversion is no longer applied exactly to the columns whose documented type is known and differs from their dtype")
+
+
